@@ -169,6 +169,10 @@ impl LockStep {
             // "every cell printed or blanked afterwards reports exactly that pen"
             return true;
         }
+        if matches!(cmd, Decstr) {
+            // only the "nothing saved any more" part of a soft reset is fixed (C17, R6)
+            return p == "C17" && what.starts_with("hidden state: saved context");
+        }
         if matches!(cmd, Resize(..)) {
             // everything else a resize does is adopted or judged relationally (C10, C16)
             return false;
